@@ -449,7 +449,7 @@ Proof.
   - apply (ConvertP.change_axes_fits_proof V c ca ca' H1 H2 H3 H4 H5 H6).
 Qed.
 
-(* C03.gcxs_reduce_den_partial *)
+(* C03.gcxs_reduce_den *)
 Lemma cite_gcxs_reduce_wf (V : Type) (veqb : V -> V -> bool) (op : V -> V -> V) (cast : V -> V)
       (sup : option (V -> Z -> V)) (ident : option V) (g : gcxs V) (ax : NpReduce.axis_arg) (kd : bool) r :
   (forall a b, veqb a b = true <-> a = b) ->
@@ -458,11 +458,10 @@ Lemma cite_gcxs_reduce_wf (V : Type) (veqb : V -> V -> bool) (op : V -> V -> V) 
   (forall s f, sup = Some s -> s f 1 = cast f) ->
   (forall s f k, sup = Some s -> 1 <= k -> s f (k + 1) = op (s f k) (cast f)) ->
   ReduceGcxsP.gcxs_ok V g -> shape_ok (g_shape g) -> g_shape g <> [] ->
-  (forall nax, Reduce.norm_axes (Reduce.zlen (g_shape g)) ax = Py.Ok nax -> Reduce.gcxs_axes_ok nax = true) ->
   Reduce.gcxs_reduce V veqb op cast sup ident ax kd g = Py.Ok r -> ReduceP.rres_wf V veqb r.
 Proof.
-  intros He A1 A2 A3 S1 S2 G1 G2 G3 G4 E.
-  pose proof (ReduceGcxsP.gcxs_reduce_den_proof V veqb He op A1 A2 cast A3 sup ident S1 S2 g ax kd G1 G2 G3 G4) as H.
+  intros He A1 A2 A3 S1 S2 G1 G2 G3 E.
+  pose proof (ReduceGcxsP.gcxs_reduce_den_proof V veqb He op A1 A2 cast A3 sup ident S1 S2 g ax kd G1 G2 G3) as H.
   rewrite E in H. destruct H as [osh [gg [_ [_ [_ Hw]]]]]. exact Hw.
 Qed.
 
@@ -515,7 +514,7 @@ Definition citations : list citation := [
   Cite "C09.indptr_splice_wf" _ cite_indptr_splice_wf;
   Cite "C05.gcxs_from_coo_wf" _ cite_gcxs_from_coo_wf;
   Cite "C05.change_axes_wf" _ cite_change_axes_wf_fits;
-  Cite "C03.gcxs_reduce_den_partial" _ cite_gcxs_reduce_wf;
+  Cite "C03.gcxs_reduce_den" _ cite_gcxs_reduce_wf;
   Cite "C04.spcoo_den" _ cite_spcoo_nodup;
   Cite "C04.spgemm_rows_sorted" _ cite_spgemm_rows_sorted;
   Cite "C04.csc_ndarray_rows_sorted" _ cite_csc_ndarray_rows_sorted;
